@@ -263,6 +263,8 @@ def run(ctx: Ctx):
     )
     DRIVERS[D + "_cmtf_als.coupled_matrix_tensor_3d_factorization"].setdefault("normalize", ("normalize_factors", "cp_normalize"))
     ctx.guarded(normalise_on_exit, ctx)
+    res.rule("ABSORBED-ONCE", "initialize_cp, user-supplied CP tensor: on every branch-consistent path on which the weights are multiplied into the factors, the object handed back is built afterwards with weights None (all ones) -- an object that still carries the original weights would apply them twice, and the decomposition returned with normalize_factors=False would not have unit weights", floor=1)
+    ctx.guarded(absorbed_once, ctx)
     res.rule("SCALE-FOLLOWS-FACTOR", "once a factorised tensor held in a local has been normalised (N = cp_normalize(N): the scale of every factor now sits in N.weights), a factor of N is not built into another factorised tensor without N.weights: the other model would silently lose that factor's scale (CMTF shares its coupled factor between the tensor and the matrix model)", floor=1)
     ctx.guarded(scale_follows_factor, ctx)
     ctx.guarded(returns_validated, ctx)
@@ -434,3 +436,69 @@ def scale_follows_factor(ctx: Ctx):
             ctx.finding("SCALE-FOLLOWS-FACTOR", f, v.node.ast if v.node is not None else f.node, v.message, construct=f"{f.name}: {v.key[1]}", path=v.path)
     if n == 0:
         raise AnalysisError("SCALE-FOLLOWS-FACTOR: no decomposition normalises a local model object any more; nothing to decide")
+
+
+# ---------------------------------------------------------------------------------
+# ABSORBED-ONCE: weights folded into the factors are not handed back as weights too
+# ---------------------------------------------------------------------------------
+def absorbed_once(ctx: Ctx):
+    from ..cfg import build_cfg
+    from ..explore import Explorer
+    from ..inline import with_inlined
+
+    repo, res = ctx.repo, ctx.res
+    f = with_inlined(repo, repo.func(D + "_cp.initialize_cp"))
+    # names that hold the weights of the user's tensor: unpacked from a CPTensor(init) / init
+    wnames = set()
+    for st in own_scope_nodes(f.node):
+        if isinstance(st, ast.Assign) and len(st.targets) == 1 and isinstance(st.targets[0], (ast.Tuple, ast.List)) and len(st.targets[0].elts) == 2 and all(isinstance(x, ast.Name) for x in st.targets[0].elts):
+            if any(isinstance(x, ast.Name) and x.id in ("init", "kt") for x in ast.walk(st.value)) or (isinstance(st.value, ast.Call) and call_name(st.value) == "CPTensor"):
+                wnames.add(st.targets[0].elts[0].id)
+    if not wnames:
+        raise AnalysisError("ABSORBED-ONCE: initialize_cp no longer unpacks (weights, factors) from the user's CP tensor; cannot decide")
+    derived = set(wnames)
+    changed = True
+    while changed:
+        changed = False
+        for st in own_scope_nodes(f.node):
+            if isinstance(st, ast.Assign) and len(st.targets) == 1 and isinstance(st.targets[0], ast.Name) and st.targets[0].id not in derived and names_in(st.value) & derived:
+                derived.add(st.targets[0].id)
+                changed = True
+
+    def fresh_unit(v):
+        """CPTensor((None, <factors>)) / (None, <factors>)"""
+        if isinstance(v, ast.Call) and call_name(v) == "CPTensor" and len(v.args) == 1:
+            v = v.args[0]
+        return isinstance(v, ast.Tuple) and len(v.elts) == 2 and isinstance(v.elts[0], ast.Constant) and v.elts[0].value is None
+
+    class Rule:
+        def init_state(self):
+            return (False, frozenset())  # weights absorbed; names bound to an object built with unit weights since
+
+        def transfer(self, node, st, ex):
+            absorbed, unit = st
+            a = node.ast
+            if a is None:
+                return st
+            if node.kind == "stmt" and isinstance(a, (ast.Assign, ast.AugAssign)):
+                tgs = a.targets if isinstance(a, ast.Assign) else [a.target]
+                val = a.value
+                for t in tgs:
+                    if isinstance(t, ast.Subscript) and names_in(val) & derived:
+                        # factors[i] = factors[i] * <something computed from the weights>
+                        if isinstance(val, ast.BinOp) and isinstance(val.op, ast.Mult):
+                            absorbed, unit = True, frozenset()
+                    if isinstance(t, ast.Name):
+                        unit = (unit | {t.id}) if fresh_unit(val) else (unit - {t.id})
+            if node.kind == "return" and absorbed and a.value is not None:
+                v = a.value
+                ok = fresh_unit(v) or (isinstance(v, ast.Name) and v.id in unit)
+                if not ok:
+                    ex.report(("ABSORBED-ONCE", src(a)), f"`{src(a)[:70]}` hands back an object built before the weights were multiplied into the factors (or built with them): it carries the user's weights *and* factors already scaled by them, so the weights are applied twice and the returned decomposition does not have unit weights", node)
+            return (absorbed, unit)
+
+    g = build_cfg(f.node, f.qname)
+    ex = Explorer(g, Rule(), track="corr").run()
+    res.instance("ABSORBED-ONCE", f"{f.qname}: user-supplied CP tensor", sample={"weight_names": sorted(wnames), "states": ex.states, "paths": ex.paths_to_exit})
+    for v in ex.violations.values():
+        ctx.finding("ABSORBED-ONCE", f, v.node.ast if v.node is not None else f.node, v.message, construct=f"initialize_cp: {v.key[1][:60]}", path=v.path)
